@@ -174,7 +174,28 @@ class Gen:
         self.r.shuffle(tb)
         vec = lambda: [self.r.randint(-2, 2) for _ in range(3)]
         tasks = [{"b": b, "st": vec(), "f": vec(), "T": vec()} for b in tb]
-        return {"desc": desc, "q": qs, "u": us, "dyn": int(dyn), "ud": ud, "F": F, "q2": q2s, "u2": u2s, "tasks": tasks, "euler": euler,
+        # constraints whose errors are polynomial in the kinematics; bodies may be Ground (0); some are switched off
+        UAX = [([1, 0, 0], 0), ([0, 1, 0], 0), ([0, 0, 1], 0), ([3, 4, 0], 1), ([0, -3, 4], 1)]
+        cons = []
+        if self.r.random() < 0.6:
+            mobile = [i for i, d in enumerate(desc, 1) if NU[d["type"]] > 0]
+            for _ in range(self.r.randint(1, 3)):
+                t = self.r.choice(["pip", "pip", "cang", "cspeed"])
+                b1, b2 = self.r.randint(0, nb), self.r.randint(1, nb)
+                if t != "cspeed" and b1 == b2:
+                    continue
+                on = int(self.r.random() < 0.8)
+                if t == "pip":
+                    ax, e = self.r.choice(UAX)
+                    cons.append({"type": "pip", "b1": b1, "b2": b2, "n": {"n": ax, "e": e}, "h": self.r.randint(-2, 2), "st": vec(), "on": on})
+                elif t == "cang":
+                    (a1, e1), (a2, e2) = self.r.choice(UAX[:3]), self.r.choice(UAX)
+                    cosn, cose = self.r.choice([(0, 0), (0, 0), (3, 1), (-4, 1)])
+                    cons.append({"type": "cang", "b1": b1, "b2": b2, "a1": {"n": a1, "e": e1}, "a2": {"n": a2, "e": e2}, "cosn": cosn, "cose": cose, "on": on})
+                elif mobile:
+                    b = self.r.choice(mobile)
+                    cons.append({"type": "cspeed", "b1": b, "k": self.r.randint(1, NU[desc[b - 1]["type"]]), "s": self.r.randint(-2, 2), "on": on})
+        return {"desc": desc, "q": qs, "u": us, "dyn": int(dyn), "ud": ud, "F": F, "cons": cons, "q2": q2s, "u2": u2s, "tasks": tasks, "euler": euler,
                 "locked": [int(self.r.random() < 0.3) for _ in desc]}
 
 
@@ -254,6 +275,24 @@ def solve(M, b):
     return x
 
 
+def full_row_rank(G):
+    A = [list(map(float, r)) for r in G]
+    rank, rows, cols = 0, len(A), len(A[0]) if A else 0
+    for c in range(cols):
+        p = max(range(rank, rows), key=lambda r: abs(A[r][c]), default=None)
+        if p is None or abs(A[p][c]) < 1e-9:
+            continue
+        A[rank], A[p] = A[p], A[rank]
+        for r in range(rank + 1, rows):
+            f = A[r][c] / A[rank][c]
+            for k in range(c, cols):
+                A[r][k] -= f * A[rank][k]
+        rank += 1
+        if rank == rows:
+            break
+    return rank == rows
+
+
 def is_spd(M, rel=0.0):
     n = len(M)
     scale = max([1.0] + [abs(M[i][i]) for i in range(n)])
@@ -277,7 +316,7 @@ def compare(cfg, want, got):
     """-> list of (property, what, detail)"""
     res = []
     if got.get("exc"):
-        return [(p, "exception", got["exc"]) for p in ("C05", "C03", "C04", "C01", "C15", "C02", "C14", "C10", "C06")]
+        return [(p, "exception", got["exc"]) for p in ("C05", "C03", "C04", "C01", "C15", "C02", "C14", "C10", "C06", "C07", "C08")]
     w = conv(want)
 
     def chk(prop, what, a, b):
@@ -338,6 +377,37 @@ def compare(cfg, want, got):
     if cfg["dyn"]:
         chk("C04", "frame-jacobian-bias", [[t["aw"], t["a"]] for t in w["taskA0"]], [[t["aw"], t["a"]] for t in got["taskA0"]])
         chk("C04", "station-jacobian-bias", [t["a"] for t in w["taskA0"]], [t["as"] for t in got["taskA0"]])
+    # ---- constraints (C07: error hierarchy and one G; C08: constrained forward dynamics)
+    on = [k for k, cc in enumerate(cfg["cons"]) if cc["on"]]
+    if on and "cons" in got:
+        hol = [k for k in on if cfg["cons"][k]["type"] != "cspeed"]
+        non = [k for k in on if cfg["cons"][k]["type"] == "cspeed"]
+        order = hol + non                      # the library's equation order: holonomic first, then nonholonomic
+        for k in on:
+            g = got["cons"][k]
+            t = cfg["cons"][k]["type"]
+            if t != "cspeed":
+                chk("C07", "position-error/" + t, w["cons"][k]["perr"], g["perr"])
+            chk("C07", "velocity-error-is-derivative-of-position-error/" + t, w["cons"][k]["verr"], g["verr"])
+        Gs = [w["G"][k] for k in order]
+        chk("C07", "constraint-matrix-G", Gs, got["G"])
+        chk("C07", "acceleration-error-is-derivative-of-velocity-error", [w["cons"][k]["aerr0"] for k in order], got["cbias"])
+        gsc = max([1.0] + [abs(v) for v in flat(Gs)])
+        small("C07", "multiplyByG-agrees-with-G", got["errG"], gsc * 10)
+        small("C07", "multiplyByGTranspose-agrees-with-G", got["errGt"], gsc * 10)
+        small("C07", "constraint-forces-act-along-G-transpose", got["errCF"], gsc * 10)
+        if cfg["dyn"] and nu and not got.get("cdynExc") and "cudot" in got and full_row_rank(Gs):      # C08 speaks about consistent sets
+            ud_s, lam = got["cudot"], got["clambda"]
+            # acceleration-level constraint equations with the spec's exact G and bias
+            res_c = [w["cons"][k]["aerr0"] + sum(Gs[r][j] * ud_s[j] for j in range(nu)) for r, k in enumerate(order)]
+            asc = max([1.0] + [abs(v) for v in flat(Gs)] + [abs(v) for v in ud_s])
+            if max([0.0] + [abs(v) for v in res_c]) > 1e-7 * asc * asc:
+                res.append(("C08", "accelerations-violate-the-constraints", "G udot + bias = %s" % res_c))
+            # M udot + G' lambda + f_inertial = f_applied with the spec's exact M, G, bias and the applied J'F + tau
+            fsc = max([1.0] + [abs(v) for v in flat(w["tau"])] + [abs(v) for v in lam] + [abs(v) for v in ud_s])
+            res_d = [sum(w["M"][j][i] * ud_s[i] for i in range(nu)) + sum(Gs[r][j] * lam[r] for r in range(len(order))) + w["bias"][j] - (w["JtF"][j] + w["tau"][j]) for j in range(nu)]
+            if max(abs(v) for v in res_d) > 1e-7 * fsc * max([1.0] + [abs(v) for v in flat(w["M"])]):
+                res.append(("C08", "equations-of-motion-with-multipliers", "M udot + G'lambda + bias - f = %s" % res_d))
     chk("C15", "composite-body-inertia", [[b["mass"], b["mcom"], b["I"]] for b in w["comp"]], [[b["mass"], b["mcom"], b["I"]] for b in got["comp"]])
     # the same State object at the second configuration and back at the first (stale kinematics would show here)
     chk("C05", "pose-after-moving-the-state", w["X2"], got["X2"])
@@ -444,6 +514,11 @@ def run(pid, tier, rep, replay=None):
     cov["euler_option_configurations"] = sum(1 for i in idx if cfgs[i].get("euler"))
     cov["function_based_bodies"] = sum(1 for i in idx for d in cfgs[i]["desc"] if d.get("fb"))
     cov["massless_bodies"] = sum(1 for i in idx for d in cfgs[i]["desc"] if d["mass"] == 0)
+    cov["constraints_enabled"] = {}
+    for i in idx:
+        for cc in cfgs[i]["cons"]:
+            if cc["on"]:
+                cov["constraints_enabled"][cc["type"]] = cov["constraints_enabled"].get(cc["type"], 0) + 1
     cov["locked_mobilizers"] = sum(1 for i in idx if cfgs[i]["dyn"] for b in cfgs[i]["locked"] if b)
     cov["mobilizers_exercised"] = types_seen
     cov["dynamics_configurations"] = sum(1 for i in idx if cfgs[i]["dyn"])
